@@ -513,7 +513,8 @@ class JaqalParser(Parser):
         if self._source_text is None:
             return 0
 
-        index = index or self._last_index
+        if index is None:
+            index = self._last_index
 
         ncol = self._source_text.rfind("\n", 0, index)
 
